@@ -124,6 +124,8 @@ class ArrInterp(ResultInterp):
             return _AMethod(base, attr)
         if isinstance(base, AMask):
             return _AMethod(base, attr)
+        if isinstance(base, Sym) and base.name.startswith("dtypeof:") and attr in ("kind", "itemsize", "name"):
+            return Sym(f"dtype{attr}:{base.name[8:]}")
         return super().get_attr(base, attr, node)
 
     def apply(self, fv, args, kwargs, node):
@@ -189,6 +191,10 @@ class ArrInterp(ResultInterp):
             return Unknown("all()")
         return Unknown(f"array.{name}")
 
+    def _negate(self, u, node):
+        d = self.decide(node, u)
+        return not d
+
     def _dtype(self, v) -> Optional[str]:
         if isinstance(v, Sym):
             n = v.name[4:] if v.name.startswith("ext:") else v.name
@@ -203,7 +209,14 @@ class ArrInterp(ResultInterp):
         return None
 
     # -- comparisons ----------------------------------------------------------------------
+    def _dtype_fact(self, key):
+        """one opaque truth value per (array side, dtype question): asked twice, answered alike"""
+        return self.root.__dict__.setdefault("_dtype_facts", {}).setdefault(key, Unknown(f"dtype-fact:{key}"))
+
     def compare_hook(self, op, l, r, node):
+        if isinstance(l, Sym) and l.name.startswith("dtypekind:") and isinstance(r, str) and isinstance(op, (ast.Eq, ast.NotEq, ast.In, ast.NotIn)):
+            u = self._dtype_fact((l.name, r))
+            return u if isinstance(op, (ast.Eq, ast.In)) else self._negate(u, node)
         if isinstance(l, AArr) and isinstance(r, (int, float)) and not isinstance(r, bool):
             k = type(op)
             if r == 0:
@@ -337,6 +350,8 @@ class ArrInterp(ResultInterp):
         return super().external_call(name, args, kwargs, node)
 
     def call_builtin(self, name, args, kwargs, node):
+        if name == "type" and len(args) == 1 and isinstance(args[0], (AArr, AMask)):
+            return Sym("ext:numpy.ndarray")  # the inputs are plain ndarrays (subclasses: fallback paths)
         if name in ("int", "bool") and args and isinstance(args[0], (EmptyTest, Reduction)):
             t = self.truth(args[0], node)
             return int(t) if name == "int" else t
